@@ -1,7 +1,7 @@
 ------------------------------- MODULE IRSem -------------------------------
 (***************************************************************************)
-(* The meaning of goml's intermediate representations.  Mono, Lift and ANF *)
-(* share one term language (the one IRTyping.tla types); this module is a  *)
+(* The meaning of goml's intermediate representations.  Core, Mono, Lift   *)
+(* and ANF share one term language (the one IRTyping.tla types); this module is a  *)
 (* big-step evaluator for it: Eval(e, env, st, C) threads the observable    *)
 (* state st = [heap, nxt, out, fuel] through the term and returns the value *)
 (* or the reason the program stops.  Values and operators are those of the  *)
@@ -79,6 +79,15 @@ KindsOk(n, vs) ==
     [] n = "array_get" -> K(1) = "array" /\ K(2) = "int"
     [] n = "array_set" -> K(1) = "array" /\ K(2) = "int" /\ Len(vs) = 3
     [] OTHER -> TRUE
+
+\* the name of a value's type as the compiler writes it into implementation names (non-generic types only)
+TyNameOf(v) ==
+  CASE v.k \in {"int", "float"} -> v.t
+    [] v.k = "bool" -> "bool"
+    [] v.k = "str" -> "string"
+    [] v.k = "unit" -> "unit"
+    [] v.k \in {"struct", "variant"} -> v.n
+    [] OTHER -> ""
 
 \* ---------------------------------------------------------------- evaluation
 RECURSIVE Eval(_, _, _, _)
@@ -182,6 +191,13 @@ Eval(e, env, st, C) ==
          ELSE IF d.v.k # "dyn" THEN Stop("unsupported", "dyn call on a value that is not a trait object", d.st)
          ELSE LET a == EvalSeq(e.as, 1, <<>>, env, d.st, C) IN
               IF ~a.ok THEN a ELSE Apply([k |-> "fnref", n |-> d.v.pre \o e.m], <<d.v.v>> \o a.v, a.st, C)
+    [] e.k = "traitcall" ->     \* Core only: the implementation is chosen by the receiver's type at run time (mono resolves it statically)
+         LET d == Eval(e.recv, env, st, C) IN
+         IF ~d.ok THEN d
+         ELSE LET a == EvalSeq(e.as, 1, <<>>, env, d.st, C) IN
+              IF ~a.ok THEN a
+              ELSE IF TyNameOf(d.v) = "" THEN Stop("unsupported", "trait call on a value whose type name is not carried by the value", a.st)
+              ELSE Apply([k |-> "fnref", n |-> "trait_impl#" \o e.tr \o "#" \o TyNameOf(d.v) \o "#" \o e.m], <<d.v>> \o a.v, a.st, C)
     [] e.k = "proj" -> LET r == Eval(e.e, env, st, C) IN
                        IF ~r.ok THEN r ELSE IF r.v.k = "tuple" /\ (e.i + 1) \in DOMAIN r.v.es THEN Ok(r.v.es[e.i + 1], r.st)
                        ELSE Stop("unsupported", "projection of a value that is not such a tuple", r.st)
